@@ -417,8 +417,12 @@ fn maybe_create_scmp_reply(
         .context("can't classify SCION packet for SCMP response")?;
 
     match classify {
-        ClassifiedPacketView::Scmp(scmp_view) if scmp_view.scmp().message().is_error() => {
-            // Don't reply to SCMP Error Messages
+        // Don't reply to SCMP Error Messages. All SCMP types below 128 are error messages,
+        // including the types unknown to this implementation.
+        ClassifiedPacketView::Scmp(scmp_view)
+            if scmp_view.scmp().message().is_error()
+                || u8::from(scmp_view.scmp().message_type()) < 128 =>
+        {
             return Ok(None);
         }
         _ => {}
